@@ -1,10 +1,11 @@
 #!/usr/bin/env python3
 """tools/seed_record.py <seed dir>... — run tools/seed_run.sh on each seeded change (quick tier) and record the outcome
 in its meta.json (`detected_by`).  Never touches /repo (seed_run.sh shadows the package through PYTHONPATH)."""
-import json, subprocess, sys, re
+import json, subprocess, sys, re, os
+ROOT = os.path.dirname(os.path.dirname(os.path.abspath(__file__)))
 for d in sys.argv[1:]:
     d = d.rstrip('/')
-    out = subprocess.run(['/verif/tools/seed_run.sh', d, 'quick'], capture_output=True, text=True).stdout
+    out = subprocess.run([ROOT + '/tools/seed_run.sh', d, 'quick'], capture_output=True, text=True).stdout
     det = 'DETECTED' in out
     nf = 'no-failing-input-found' in out
     m = json.load(open(d + '/meta.json'))
